@@ -48,6 +48,7 @@ type Episode struct {
 	States           []string // distinct abstract states visited (property specific)
 	t0               time.Time
 	cleanups         []func()
+	afterDrain       []func()
 }
 
 func NewEpisode(prop string, seed uint64, tape *Tape) *Episode {
@@ -148,6 +149,11 @@ func (e *Episode) SimTime() time.Duration {
 }
 func (e *Episode) Param(k string) string { return e.Params[k] }
 func (e *Episode) OnCleanup(f func())    { e.cleanups = append(e.cleanups, f) }
+
+// OnDrained registers f to run when Drain ends. Hooks that turn lock waits into scheduling points must stay
+// installed while parked tasks are released one by one: a released task that waits for a lock whose holder
+// is still parked has to park again instead of spinning.
+func (e *Episode) OnDrained(f func()) { e.afterDrain = append(e.afterDrain, f) }
 
 // BucketSize buckets a size for signatures.
 func BucketSize(n int) string {
@@ -543,6 +549,11 @@ func (s *Sched) AllHarnessDone() bool {
 // releases everything that is parked and waits for harness tasks to finish.
 // Returns false if some goroutine could not be drained (worker must be recycled).
 func (s *Sched) Drain() bool {
+	defer func() {
+		for _, f := range s.ep.afterDrain {
+			f()
+		}
+	}()
 	s.ep.Freeze()
 	for _, f := range s.ep.cleanups {
 		f()
